@@ -17,6 +17,7 @@ from ..core import (
     self_fields_read,
     proj_str,
     place_fields,
+    switch_sites,
 )
 from .. import flow
 from ..flow import consumers, conditions, switch_subject
@@ -1447,3 +1448,124 @@ def rule_n_vars_covers_reservations(ctx):
             continue
         r.check(written <= read, anchor, "reserved-not-counted:%s" % sorted(written - read), "n_vars() reads what reserve() writes (%s)" % sorted(written), "`reserve` records the reservation in %s, which `n_vars()` does not read: reserved variables are not counted - the model does not cover them and `1 + n_vars()` can hand out a reserved variable's number as a fresh selector" % sorted(written - read), nb.loc())
     r.floor(n, 2, "SatSolver impls with reserve and n_vars")
+
+
+_SWALLOW = re.compile(r"core::result::Result::<.*>::(ok|unwrap_or_default|unwrap_or|unwrap_or_else|is_ok)$|core::result::Result::(ok|unwrap_or_default|unwrap_or|unwrap_or_else)$")
+
+
+def _result_item_dropped(prog, body, clo):
+    """does the closure turn an Err item (a failed read) into a value / into `stop` instead of aborting: a call of Result::ok,
+    unwrap_or*, or an Err arm of a match on the item from which the closure can return"""
+    for s in clo.calls():
+        d = callee_decl(callee_of(s))
+        if _SWALLOW.search(d) or re.search(r"Result::(ok|unwrap_or|unwrap_or_default|unwrap_or_else)$", strip_generics(d)):
+            for o in origins(clo, s.node["args"][0], transparent=()):
+                if o.kind == "param":
+                    return "calls %s on the read result" % d.rsplit("::", 1)[-1]
+    for sw in switch_sites(clo):
+        from ..flow import switch_subject
+
+        subj = switch_subject(clo, sw)
+        if not subj or not subj[1]:
+            continue
+        ty = clo.local_ty(subj[0]["l"])
+        if not re.match(r"^&?(mut )?(core::result::)?Result<", ty) or "Error" not in ty:
+            continue
+        if not any(o.kind == "param" for o in origins(clo, {"l": subj[0]["l"], "p": []}, transparent=())):
+            continue
+        err_t = [tb for v, tb in sw.node["targets"] if v == "1"]
+        if not err_t and sw.node.get("otherwise") is not None and any(v == "0" for v, tb in sw.node["targets"]):
+            err_t = [sw.node["otherwise"]]
+        for tb in err_t:
+            reach = {tb} | clo.blocks_reachable_from(tb)
+            if any(clo.blocks[x]["term"]["k"] == "return" for x in reach if not clo.blocks[x]["cleanup"]):
+                return "its Err arm returns a value"
+    return None
+
+
+def rule_reply_read_errors_abort(ctx):
+    """C16.4 / C17.2: a reply that cannot be read (I/O error, bytes that are no text) is not a reply that ended"""
+    prog = ctx.prog
+    r = ctx.rule(
+        "reply-read-errors-abort",
+        "text back end: a failed read of the solver's reply (the Err items of `BufRead::lines`: I/O error, invalid UTF-8) aborts the call; it is "
+        "not dropped (`Result::ok`, `flatten`, `unwrap_or…`) and does not end the reading as if the reply were complete (`map_while(Result::ok)`, "
+        "`let Ok(..) else break`) - what was read before the garbage would be taken for the whole reply",
+    )
+    n = 0
+    for b in sorted(prog.lib_bodies(), key=lambda x: x.id):
+        if not in_sat_module(b):
+            continue
+        for s in b.calls():
+            if not callee_matches(callee_of(s), r"BufRead::lines$"):
+                continue
+            n += 1
+            anchor = "%s|lines" % b.id
+            # adaptors applied to the line iterator (forward data flow from the call's destination)
+            frontier = {s.node["dst"]["l"]}
+            bad = None
+            handled = False
+            for _ in range(8):
+                nxt = set()
+                for s2 in b.calls():
+                    args = s2.node.get("args") or []
+                    if not args:
+                        continue
+                    p0 = op_place(args[0])
+                    if p0 is None:
+                        continue
+                    deps, _, _ = data_deps(b, args[0], through_calls=False)
+                    if not (deps & frontier) and p0["l"] not in frontier:
+                        continue
+                    c2 = callee_of(s2)
+                    d2 = callee_decl(c2)
+                    fa = c2.get("fn_args") or []
+                    if d2.endswith("Iterator::flatten"):
+                        bad = ("flatten", s2)
+                    for f in fa:
+                        if _SWALLOW.search(f) or re.search(r"Result::<.*>::ok$|Result::ok$", f):
+                            bad = ("%s(Result::ok)" % d2.rsplit("::", 1)[-1], s2)
+                        clo = prog.by_target[b.target].get(f)
+                        if clo is not None and clo.kind == "closure" and clo.n_args >= 2 and "Result<" in clo.local_ty(2):
+                            why = _result_item_dropped(prog, b, clo)
+                            if why:
+                                bad = ("%s: the closure %s" % (d2.rsplit("::", 1)[-1], why), s2)
+                            else:
+                                handled = True
+                    if d2 == "core::iter::traits::iterator::Iterator::next":
+                        # a loop over the items in this body: the Err arm of the match on the item must not leave / continue the loop
+                        item = s2.node["dst"]["l"]
+                        for sw in switch_sites(b):
+                            from ..flow import switch_subject
+
+                            subj = switch_subject(b, sw)
+                            if not subj or not subj[1]:
+                                continue
+                            ty = b.local_ty(subj[0]["l"])
+                            if not re.match(r"^&?(mut )?(core::result::)?Result<", ty) or "Error" not in ty:
+                                continue
+                            dd, _, _ = data_deps(b, {"l": subj[0]["l"], "p": []}, through_calls=False)
+                            if item not in dd and subj[0]["l"] != item:
+                                continue
+                            err_t = [tb for v, tb in sw.node["targets"] if v == "1"]
+                            if not err_t and any(v == "0" for v, tb in sw.node["targets"]):
+                                err_t = [sw.node["otherwise"]]
+                            for tb in err_t:
+                                reach = {tb} | b.blocks_reachable_from(tb)
+                                if any(b.blocks[x]["term"]["k"] == "return" for x in reach if not b.blocks[x]["cleanup"]):
+                                    bad = ("the Err arm of the match on a read line goes on", sw)
+                                else:
+                                    handled = True
+                    if s2.node.get("dst") is not None:
+                        nxt.add(s2.node["dst"]["l"])
+                if not (nxt - frontier):
+                    break
+                frontier |= nxt
+            if bad:
+                r.violation(anchor, "read-error-swallowed", "a failed read of the solver's reply is swallowed (%s): the lines read before it are taken for the complete reply" % bad[0], bad[1].loc())
+            elif handled:
+                r.ok(anchor, "an Err item of the reply's lines diverges", s.loc())
+            else:
+                r.ok(anchor, "NOT decided: no handler of the read results recognised", s.loc())
+    if n == 0:
+        r.ok("lines", "NOT decided: no BufRead::lines reader in the SAT layer", None)
